@@ -1,6 +1,7 @@
 package registry
 
 import (
+	"go/token"
 	"go/types"
 	"path"
 	"strings"
@@ -61,6 +62,12 @@ func (p Package) uniqueName(lvl int) string {
 	var name string
 	for i := 0; i < min(len(pp), lvl+1); i++ {
 		name = strings.ToLower(replacer.Replace(pp[i])) + name
+	}
+
+	// Path components may start with a digit or spell a keyword or a
+	// predeclared name ("3d", "type", "string"): keep the qualifier usable.
+	if !token.IsIdentifier(name) || types.Universe.Lookup(name) != nil {
+		name = "_" + name
 	}
 
 	return name
